@@ -197,7 +197,18 @@ def _err_edge_returns(fn, err_t, ok_t, test_bb=None):
     r = fn.reach(err_t, stop=stop)
     ok_reach = fn.reach(ok_t, stop=stop)
     shared = [b for b in r if b in ok_reach and b != test_bb and fn.blocks[b]['t']['k'] == 'call' and not re.search(r'drop_in_place|::drop$', (fn.blocks[b]['t']['f'].get('r') or fn.blocks[b]['t']['f'].get('p') or ''))]
-    return not shared
+    if shared:
+        return False
+    # ... and what it leaves with is not a success: `let Ok(x) = parse(..) else { return Ok(None) }` swallows the failure
+    for b in r:
+        if b in ok_reach:
+            continue
+        for st in fn.blocks[b]['s']:
+            d = st.get('d') or {}
+            rv = st.get('rv') or {}
+            if d.get('l') == 0 and not d.get('p') and rv.get('k') == 'agg' and rv.get('adt') == 'core::result::Result' and rv.get('variant') == 'Ok':
+                return False
+    return True
 
 def run(ctx):
     P = ctx.prog
